@@ -113,13 +113,22 @@ class ErrGen:
         for _ in range(r.randrange(1, 3)):
             xs += self.state_stmts()
         c = r.random()
-        if depth > 0 and c < 0.35:
+        if depth > 0 and c < 0.2:
             xs += self.try_stmt(depth - 1, in_fn, in_loop)
+        elif depth > 0 and c < 0.38:
+            # a loop inside this block whose body contains a try that may leave the loop
+            lv = "j%d" % self.mark
+            body = Block(self.try_stmt(depth - 1, in_fn, lv) + [self.say()])
+            xs.append(For([lv], Range(Int(0), Int(r.choice([1, 2, 3]))), body))
+            # ... followed (sometimes) by a fault that the enclosing handler must receive
+            if r.random() < 0.6:
+                f, _ = self.fault()
+                xs += self.site(f)
         elif c < 0.8:
             f, thrown = self.fault()
             xs += self.site(f)
         elif in_loop and c < 0.9:
-            xs.append(If([Cmp([">="], [Id("i"), Int(1)])], [Block([r.choice([Break(), Continue()])])]))
+            xs.append(If([Cmp([">="], [Id(in_loop), Int(1)])], [Block([r.choice([Break(), Continue()])])]))
         elif in_fn and c < 0.95:
             xs.append(Return(Int(self.mark)))
         xs.append(self.say())
@@ -152,6 +161,11 @@ class ErrGen:
     def catch_extra(self, depth, in_fn, in_loop):
         r = self.r
         c = r.random()
+        if in_loop and r.random() < 0.25:
+            # leave the loop from inside the handler
+            return [If([Cmp([">="], [Id(in_loop), Int(r.choice([0, 1]))])], [Block([r.choice([Break(), Continue()])])])]
+        if in_fn and r.random() < 0.1:
+            return [Return(Int(self.mark))]
         if c < 0.12:
             f, _ = self.fault()
             return [Asg(self.newvar(), f)] if f["k"] in ("bin", "idx") else [f]
@@ -175,8 +189,9 @@ class ErrGen:
                 xs += self.try_stmt(r.choice([0, 1, 2]), False, False)
             elif c < 0.75:
                 # try inside a loop: exits by break / continue
-                body = Block(self.try_stmt(r.choice([0, 1]), False, True) + [self.say()])
-                xs.append(For(["i"], Range(Int(0), Int(r.choice([1, 2, 3]))), body))
+                lv = "i%d" % self.mark
+                body = Block(self.try_stmt(r.choice([0, 1]), False, lv) + [self.say()])
+                xs.append(For([lv], Range(Int(0), Int(r.choice([1, 2, 3]))), body))
             else:
                 # try inside a function: exits by return; the caller wraps the call in its own try
                 fbody = Block(self.try_stmt(r.choice([0, 1]), True, False) + [Int(-1)])
